@@ -43,6 +43,9 @@ var cfStrings = map[string][]string{
 	"equals":    {"a=b", "=", "k = v"},
 	"bracket":   {"a[b]", "[x]", "{y}"},
 	"empty":     {""},
+	"percent":   {"100%", "a%sb", "%v", "50%% off", "%!(EXTRA"},
+	// ignore patterns that a path cleaner would rewrite
+	"pathlike": {"out/", "./build/**", "a/../b/*.tmp", "x//y", "./", "..", "a/./b"},
 }
 
 var cfPaths = map[string][]string{
@@ -54,6 +57,7 @@ var cfPaths = map[string][]string{
 	// an @ suffix that is not a major version of 2 or more is part of a clean path too
 	"atword": {"reqs/tool@next", "deploy/user@host", "example.com/lib@latest"},
 	"atodd":  {"reqs/lib@v1.5", "reqs/lib@2", "reqs/lib@v02", "x@y/lib"},
+	"percent": {"reqs/a%20b", "example.com/%v@v2", "reqs/100%"},
 }
 
 func cfJSON(c *Config) map[string]any {
